@@ -189,25 +189,59 @@ pub mod rec {
         }
         Ok(r)
     }
-    pub fn qresp<E: From<HandlerErr>>(name: &str, code: u32, ok: bool) -> Result<QResp, E> {
+    /// The value an echo query handler returns, in whatever response type it declares.
+    pub trait QShape: Sized {
+        fn make(name: &str, code: u32) -> Self;
+    }
+    impl QShape for QResp {
+        fn make(name: &str, code: u32) -> Self {
+            QResp { h: name.to_string(), code }
+        }
+    }
+    impl QShape for QRespB {
+        fn make(name: &str, code: u32) -> Self {
+            QRespB { h: name.to_string(), code, extra: true }
+        }
+    }
+    impl QShape for (QResp,) {
+        fn make(name: &str, code: u32) -> Self {
+            (QResp::make(name, code),)
+        }
+    }
+    impl QShape for (QResp, u64) {
+        fn make(name: &str, code: u32) -> Self {
+            (QResp::make(name, code), code as u64)
+        }
+    }
+    impl QShape for Vec<(u64,)> {
+        fn make(_name: &str, code: u32) -> Self {
+            vec![(code as u64,)]
+        }
+    }
+    impl QShape for [QRespB; 2] {
+        fn make(name: &str, code: u32) -> Self {
+            [QRespB::make(name, code), QRespB::make(name, code)]
+        }
+    }
+    pub fn qresp_t<T: QShape, E: From<HandlerErr>>(name: &str, code: u32, ok: bool) -> Result<T, E> {
         if ok {
-            Ok(QResp { h: name.to_string(), code })
+            Ok(T::make(name, code))
         } else {
             Err(HandlerErr::Boom(code).into())
         }
     }
-
+    pub fn qresp<E: From<HandlerErr>>(name: &str, code: u32, ok: bool) -> Result<QResp, E> {
+        qresp_t(name, code, ok)
+    }
     pub fn qresp_b<E: From<HandlerErr>>(name: &str, code: u32, ok: bool) -> Result<QRespB, E> {
-        if ok {
-            Ok(QRespB { h: name.to_string(), code, extra: true })
-        } else {
-            Err(HandlerErr::Boom(code).into())
-        }
+        qresp_t(name, code, ok)
     }
 
     /// C16 observation: the query response table of one message type (or of the contract-level one).
     pub fn schemas(prog: &str, part: &str, table: Result<std::collections::BTreeMap<String, schemars::schema::RootSchema>, String>, anyof: i64) {
-        let known = [("QResp", cosmwasm_schema::schema_for!(QResp)), ("QRespB", cosmwasm_schema::schema_for!(QRespB))];
+        let known = [("QResp", cosmwasm_schema::schema_for!(QResp)), ("QRespB", cosmwasm_schema::schema_for!(QRespB)),
+                     ("Tup1", cosmwasm_schema::schema_for!((QResp,))), ("Tup2", cosmwasm_schema::schema_for!((QResp, u64))),
+                     ("VecTup1", cosmwasm_schema::schema_for!(Vec<(u64,)>)), ("ArrB", cosmwasm_schema::schema_for!([QRespB; 2]))];
         match table {
             Ok(t) => {
                 let rows: Vec<Value> = t.iter().map(|(k, v)| {
